@@ -220,6 +220,43 @@ fn main() {
                 &format!("{} distinct first cards, {} distinct sequences", firsts.len(), triples.len()));
         }
     }
+    // ---- joint distribution of the two hole cards (`Deck::hole`): every unordered pair equally likely
+    {
+        let n: u64 = if a.thorough() { 1_200_000 } else { 250_000 };
+        let cards: Vec<u8> = (0..52u8).filter(|c| full >> c & 1 == 1).collect();
+        let m = cards.len();
+        let mut pos = [usize::MAX; 64];
+        for (i, c) in cards.iter().enumerate() { pos[*c as usize] = i; }
+        let mut hist = vec![0u64; m * m];
+        let mut bad = 0u64;
+        for _ in 0..n {
+            let mut deck = Deck::new();
+            let h = u64::from(Hand::from(deck.hole()));
+            if h.count_ones() != 2 || h & !full != 0 { bad += 1; continue; }
+            let lo = h.trailing_zeros() as usize;
+            let hi = 63 - h.leading_zeros() as usize;
+            hist[pos[lo] * m + pos[hi]] += 1;
+        }
+        run.evaluations += n;
+        run.spec_checked += 1;
+        let cells = (m * (m - 1) / 2) as f64;
+        let expect = (n - bad) as f64 / cells;
+        let mut chi2 = 0.0f64;
+        let mut worst = (0usize, 0usize, 0u64);
+        for i in 0..m { for j in i + 1..m {
+            let o = hist[i * m + j];
+            chi2 += (o as f64 - expect).powi(2) / expect;
+            if (o as f64 - expect).abs() > (worst.2 as f64 - expect).abs() || worst.2 == 0 { worst = (i, j, o); }
+        } }
+        let dof = cells - 1.0;
+        let z = (chi2 - dof) / (2.0 * dof).sqrt();
+        run.count(&format!("hole-pair-chi2 z={:.1}", z));
+        if bad > 0 || z > 6.0 {
+            run.fail("hole-pairs-not-equally-likely", &format!("{n} x Deck::new().hole()"),
+                &format!("all {} unordered pairs about {:.0} times (chi2 about {:.0})", cells as u64, expect, dof),
+                &format!("chi2 = {:.0} ({:+.1} sigma), {} malformed; e.g. cards ({}, {}) dealt {} times", chi2, z, bad, cards[worst.0], cards[worst.1], worst.2));
+        }
+    }
     // ---- random observations (Observation::from(Street)): every card equally likely to be a pocket
     // card and equally likely to be a board card; pocket and board disjoint
     {
